@@ -17,7 +17,6 @@ import (
 	nullmetrics "github.com/attestantio/vouch/services/metrics/null"
 	"github.com/attestantio/vouch/services/synccommitteeaggregator"
 	"github.com/attestantio/vouch/services/synccommitteemessenger"
-	"github.com/rs/zerolog"
 	e2wtypes "github.com/wealdtech/go-eth2-wallet-types/v2"
 )
 
@@ -161,7 +160,7 @@ func c15New(label string, e c15Env) *Service {
 		e.sel = &c15SelSigner{}
 	}
 	s, err := New(context.Background(),
-		WithLogLevel(zerolog.Disabled),
+		WithLogLevel(vnd.LogLevel()),
 		WithMonitor(&nullmetrics.Service{}),
 		WithProcessConcurrency(2),
 		WithSpecProvider(&c15Spec{spec: map[string]any{
